@@ -197,3 +197,383 @@ Proof.
     rewrite delivered_cons, consulted_cons, (Hn g (or_introl eq_refl)).
     split; [exact IH1|now rewrite IH2].
 Qed.
+
+(* ---------- re-entrant histories: declarative spec ---------- *)
+
+(* the events of ONE call, each followed by whatever user code does at that
+   point: after a delivery to appender a, `ia a`; after a handler call for
+   appender a's error, `ih a`; nothing after a filter consultation *)
+Definition expand (id : nat) (ia ih : nat -> list rev) (e : event) : list rev :=
+  Ev id e :: match e with
+             | Consult _ _ => []
+             | Deliver a => ia a
+             | Handler a => ih a
+             end.
+
+Definition nest (id : nat) (ia ih : nat -> list rev) (evs : list event) : list rev :=
+  concat (map (expand id ia ih) evs).
+
+Definition cid (c : call) : nat := match c with Call id _ _ _ _ _ _ => id end.
+Definition ckids (c : call) : list call := match c with Call _ _ _ _ _ _ kids => kids end.
+
+Section Re.
+  Variable apps : list appender.
+  Variable nodes : list (N * list nat).
+
+  Definition node_level (nd : nat) : N := fst (nth nd nodes (0, [])).
+  Definition node_att (nd : nat) : list nat := snd (nth nd nodes (0, [])).
+
+  (* the nesting of the single-call event lists (log_record) of all calls of the tree *)
+  Fixpoint weave (c : call) : list rev :=
+    match c with
+    | Call id _ _ nd L panics kids =>
+      let issued (h : bool) (a : nat) :=
+          concat (map (fun k => if triggered k h a then weave k else []) kids) in
+      nest id
+        (fun a => (if existsb (Nat.eqb a) panics then [Unwind id] else []) ++ issued false a)
+        (issued true)
+        (log_record (node_level nd) apps (node_att nd) L)
+    end.
+
+  Lemma nest_app id ia ih l1 l2 :
+    nest id ia ih (l1 ++ l2) = nest id ia ih l1 ++ nest id ia ih l2.
+  Proof. unfold nest. now rewrite map_app, concat_app. Qed.
+
+  Lemma nest_consults id ia ih a l :
+    nest id ia ih (map (Consult a) l) = map (Ev id) (map (Consult a) l).
+  Proof. induction l as [|x xs IH]; [reflexivity|]. unfold nest in *. cbn. now rewrite IH. Qed.
+
+  Lemma app_append_r_spec id ia ih a ap L :
+    app_append_r id ia a ap L =
+    (nest id ia ih (fst (app_append a ap L)), snd (app_append a ap L)).
+  Proof.
+    unfold app_append_r. rewrite app_append_spec. cbn [fst snd].
+    rewrite chain_spec. unfold single_events.
+    destruct (delivered (filters ap) L); cbn [andb].
+    - rewrite nest_app, nest_consults. unfold nest. cbn. now rewrite app_nil_r.
+    - now rewrite app_nil_r, nest_consults.
+  Qed.
+
+  Lemma fan_r_spec id ia ih attached L :
+    fan_r apps id ia attached L =
+    (nest id ia ih (fst (fan apps attached L)), snd (fan apps attached L)).
+  Proof.
+    induction attached as [|i rest IH]; [reflexivity|].
+    cbn [fan_r fan]. rewrite (app_append_r_spec id ia ih), IH.
+    destruct (app_append i (nth i apps dummy_app) L) as [ev err].
+    destruct (fan apps rest L) as [evs errs]. cbn [fst snd].
+    now rewrite nest_app.
+  Qed.
+
+  Lemma nest_handlers id ia ih errs :
+    nest id ia ih (map Handler errs) = concat (map (fun i => Ev id (Handler i) :: ih i) errs).
+  Proof. unfold nest. now rewrite map_map. Qed.
+
+  (* composition law, one level: a call whose user code does ia/ih produces the
+     single-call events of log_record with ia/ih spliced in *)
+  Lemma log_record_r_nest id ia ih lvl attached L :
+    log_record_r apps id ia ih lvl attached L = nest id ia ih (log_record lvl apps attached L).
+  Proof.
+    unfold log_record_r, log_record. destruct (L <=? lvl); [|reflexivity].
+    rewrite (fan_r_spec id ia ih). destruct (fan apps attached L) as [ev errs]. cbn [fst snd].
+    now rewrite nest_app, nest_handlers.
+  Qed.
+
+  Lemma nest_ext id ia ia' ih ih' evs :
+    (forall a, ia a = ia' a) -> (forall a, ih a = ih' a) ->
+    nest id ia ih evs = nest id ia' ih' evs.
+  Proof.
+    intros Ha Hh. unfold nest. f_equal. apply map_ext. intros [a k|a|a]; unfold expand; rewrite ?Ha, ?Hh; reflexivity.
+  Qed.
+
+  (* rose-tree induction *)
+  Lemma call_ind' (P : call -> Prop) :
+    (forall id bh ba nd L panics kids, Forall P kids -> P (Call id bh ba nd L panics kids)) ->
+    forall c, P c.
+  Proof.
+    intros H. fix IH 1. intros [id bh ba nd L panics kids]. apply H.
+    induction kids as [|k ks IHk]; constructor; [apply IH|exact IHk].
+  Qed.
+
+  Lemma issued_ext (f g : call -> list rev) kids h a :
+    Forall (fun k => f k = g k) kids ->
+    concat (map (fun k => if triggered k h a then f k else []) kids) =
+    concat (map (fun k => if triggered k h a then g k else []) kids).
+  Proof.
+    induction 1 as [|k ks Hk _ IH]; [reflexivity|]. cbn. now rewrite Hk, IH.
+  Qed.
+
+  Theorem run_weave c : run apps nodes c = weave c.
+  Proof.
+    induction c as [id bh ba nd L panics kids IH] using call_ind'.
+    cbn [run weave]. rewrite log_record_r_nest. unfold node_level, node_att.
+    apply nest_ext; intros a; now rewrite (issued_ext _ _ kids _ a IH).
+  Qed.
+
+  (* ---------- ids ---------- *)
+  Fixpoint ids (c : call) : list nat :=
+    match c with Call id _ _ _ _ _ kids => id :: concat (map ids kids) end.
+
+  Definition rid (r : rev) : nat := match r with Ev i _ | Unwind i => i end.
+
+  (* the events observed on record id, in order *)
+  Definition events_of (id : nat) (l : list rev) : list event :=
+    flat_map (fun r => match r with
+                       | Ev i e => if Nat.eqb i id then [e] else []
+                       | Unwind _ => []
+                       end) l.
+
+  Lemma events_of_app id l1 l2 : events_of id (l1 ++ l2) = events_of id l1 ++ events_of id l2.
+  Proof. unfold events_of. now rewrite flat_map_app. Qed.
+
+  Lemma events_of_foreign id l :
+    (forall r, In r l -> rid r <> id) -> events_of id l = [].
+  Proof.
+    induction l as [|r rs IH]; intros H; [reflexivity|].
+    unfold events_of in *. cbn [flat_map]. rewrite IH by (intros r' Hr'; apply H; now right).
+    destruct r as [i e|i]; [|reflexivity].
+    destruct (Nat.eqb_spec i id) as [->|]; [|reflexivity].
+    exfalso. now apply (H (Ev id e) (or_introl eq_refl)).
+  Qed.
+
+  Lemma in_nest id ia ih evs r :
+    In r (nest id ia ih evs) -> (exists e, r = Ev id e) \/ exists a, In r (ia a) \/ In r (ih a).
+  Proof.
+    unfold nest. rewrite in_concat. intros (l & Hl & Hr). rewrite in_map_iff in Hl.
+    destruct Hl as (e & <- & _). destruct Hr as [<-|Hr]; [left; now exists e|].
+    destruct e as [a k|a|a]; [easy| |]; right; exists a; auto.
+  Qed.
+
+  Lemma in_issued (f : call -> list rev) kids h a r :
+    In r (concat (map (fun k => if triggered k h a then f k else []) kids)) ->
+    exists k, In k kids /\ In r (f k).
+  Proof.
+    rewrite in_concat. intros (l & Hl & Hr). rewrite in_map_iff in Hl.
+    destruct Hl as (k & <- & Hk). exists k. split; [exact Hk|].
+    now destruct (triggered k h a).
+  Qed.
+
+  Lemma run_ids c : forall r, In r (run apps nodes c) -> In (rid r) (ids c).
+  Proof.
+    induction c as [id bh ba nd L panics kids IH] using call_ind'.
+    intros r Hr. cbn [run] in Hr. rewrite log_record_r_nest in Hr.
+    apply in_nest in Hr. cbn [ids]. destruct Hr as [(e & ->)|(a & [Hr|Hr])]; [now left| |].
+    - apply in_app_or in Hr. destruct Hr as [Hr|Hr].
+      + destruct (existsb _ panics); [|easy]. destruct Hr as [<-|[]]. now left.
+      + right. apply in_issued in Hr. destruct Hr as (k & Hk & Hr).
+        rewrite in_concat. exists (ids k). split; [now apply in_map|].
+        rewrite Forall_forall in IH. now apply IH.
+    - right. apply in_issued in Hr. destruct Hr as (k & Hk & Hr).
+      rewrite in_concat. exists (ids k). split; [now apply in_map|].
+      rewrite Forall_forall in IH. now apply IH.
+  Qed.
+
+  Lemma events_of_nest id ia ih evs :
+    (forall a, events_of id (ia a) = []) -> (forall a, events_of id (ih a) = []) ->
+    events_of id (nest id ia ih evs) = evs.
+  Proof.
+    intros Ha Hh. induction evs as [|e es IH]; [reflexivity|].
+    change (nest id ia ih (e :: es)) with (expand id ia ih e ++ nest id ia ih es).
+    rewrite events_of_app, IH. unfold expand.
+    change (events_of id (Ev id e :: ?l)) with ((if Nat.eqb id id then [e] else []) ++ events_of id l).
+    rewrite Nat.eqb_refl. destruct e as [a k|a|a]; cbn; now rewrite ?Ha, ?Hh.
+  Qed.
+
+  (* erasure: in the trace of a re-entrant call tree, the events observed on the
+     top record are exactly those of the single, non-re-entrant call *)
+  Theorem reentrant_erasure id bh ba nd L panics kids :
+    ~ In id (concat (map ids kids)) ->
+    events_of id (run apps nodes (Call id bh ba nd L panics kids)) =
+    log_record (node_level nd) apps (node_att nd) L.
+  Proof.
+    intros Hid. cbn [run]. rewrite log_record_r_nest.
+    assert (Hiss : forall h a, events_of id (concat (map (fun k => if triggered k h a
+                              then run apps nodes k else []) kids)) = []).
+    { intros h a. apply events_of_foreign. intros r Hr Heq.
+      apply in_issued in Hr. destruct Hr as (k & Hk & Hr). apply Hid. rewrite <- Heq.
+      rewrite in_concat. exists (ids k). split; [now apply in_map|now apply run_ids]. }
+    apply events_of_nest; intros a; [|apply Hiss].
+    rewrite events_of_app, Hiss, app_nil_r. now destruct (existsb _ panics).
+  Qed.
+
+  Lemma in_events_of id l e : In e (events_of id l) <-> In (Ev id e) l.
+  Proof.
+    unfold events_of. rewrite in_flat_map. split.
+    - intros ([i e'|i] & Hr & He); [|easy].
+      destruct (Nat.eqb_spec i id) as [->|]; [|easy]. now destruct He as [<-|[]].
+    - intros H. exists (Ev id e). split; [exact H|]. rewrite Nat.eqb_refl. now left.
+  Qed.
+
+  Lemma in_single_deliver a b ap L :
+    In (Deliver b) (single_events a ap L) <-> a = b /\ delivered (filters ap) L = true.
+  Proof.
+    unfold single_events. rewrite in_app_iff, in_map_iff. split.
+    - intros [(x & Hx & _)|H]; [easy|]. destruct (delivered (filters ap) L); [|easy].
+      destruct H as [[= ->]|[]]. now split.
+    - intros [-> ->]. right. now left.
+  Qed.
+
+  Lemma in_log_record_deliver lvl attached L b :
+    In (Deliver b) (log_record lvl apps attached L) <->
+    (L <=? lvl) = true /\ In b attached /\ delivered (filters (nth b apps dummy_app)) L = true.
+  Proof.
+    rewrite log_record_spec. destruct (L <=? lvl); [|split; [easy|intros [? _]; easy]].
+    rewrite in_app_iff, in_concat. split.
+    - intros [(l & Hl & Hin)|H].
+      + rewrite in_map_iff in Hl. destruct Hl as (i & <- & Hi).
+        apply in_single_deliver in Hin. destruct Hin as [-> Hd]. auto.
+      + rewrite in_map_iff in H. now destruct H as (x & Hx & _).
+    - intros (_ & Hb & Hd). left. exists (single_events b (nth b apps dummy_app) L).
+      split; [now apply (in_map (fun i => single_events i (nth i apps dummy_app) L))|].
+      now apply in_single_deliver.
+  Qed.
+
+  (* receipt in a re-entrant history is decided by the appender's own chain *)
+  Theorem reentrant_receipt id bh ba nd L panics kids b :
+    ~ In id (concat (map ids kids)) ->
+    (In (Ev id (Deliver b)) (run apps nodes (Call id bh ba nd L panics kids)) <->
+     (L <=? node_level nd) = true /\ In b (node_att nd) /\
+     delivered (filters (nth b apps dummy_app)) L = true).
+  Proof.
+    intros Hid. rewrite <- in_events_of, (reentrant_erasure _ _ _ _ _ _ _ Hid).
+    apply in_log_record_deliver.
+  Qed.
+
+  Theorem reentrant_errors_once id bh ba nd L panics kids :
+    ~ In id (concat (map ids kids)) ->
+    filter is_handler (events_of id (run apps nodes (Call id bh ba nd L panics kids))) =
+    if L <=? node_level nd then
+      map Handler (filter (fun i => delivered (filters (nth i apps dummy_app)) L
+                                    && fails (nth i apps dummy_app)) (node_att nd))
+    else [].
+  Proof. intros Hid. rewrite (reentrant_erasure _ _ _ _ _ _ _ Hid). apply handlers_exact. Qed.
+
+  (* ---------- unwinding ---------- *)
+  Lemma cut_prefix l : exists r, l = cut l ++ r.
+  Proof.
+    induction l as [|e es [r IH]]; [now exists []|].
+    destruct e as [i e|i]; cbn [cut].
+    - exists r. cbn. now rewrite <- IH.
+    - now exists es.
+  Qed.
+
+  Lemma cut_in l r : In r (cut l) -> In r l.
+  Proof.
+    induction l as [|e es IH]; [easy|]. destruct e as [i e|i]; cbn [cut].
+    - intros [<-|H]; [now left|right; now apply IH].
+    - intros [<-|[]]. now left.
+  Qed.
+
+  Lemma cut_no_unwind l : (forall i, ~ In (Unwind i) l) -> cut l = l.
+  Proof.
+    induction l as [|e es IH]; intros H; [reflexivity|]. destruct e as [i e|i].
+    - cbn [cut]. f_equal. apply IH. intros j Hj. apply (H j). now right.
+    - exfalso. apply (H i). now left.
+  Qed.
+
+  (* nothing runs after the panic: the cut trace ends at its only Unwind *)
+  Lemma cut_unwind_last l i : In (Unwind i) (cut l) -> exists p, cut l = p ++ [Unwind i] /\ forall j, ~ In (Unwind j) p.
+  Proof.
+    induction l as [|e es IH]; [easy|]. destruct e as [j e|j]; cbn [cut].
+    - intros [H|H]; [easy|]. destruct (IH H) as (p & Hp & Hn). exists (Ev j e :: p). split.
+      + cbn. now rewrite Hp.
+      + intros k [Hk|Hk]; [easy|]. now apply (Hn k).
+    - intros [[= ->]|[]]. exists []. split; [reflexivity|easy].
+  Qed.
+
+  Fixpoint pfree (c : call) : bool :=
+    match c with
+    | Call _ _ _ _ _ panics kids =>
+      match panics with [] => forallb pfree kids | _ => false end
+    end.
+
+  Lemma run_pfree c : pfree c = true -> forall i, ~ In (Unwind i) (run apps nodes c).
+  Proof.
+    induction c as [id bh ba nd L panics kids IH] using call_ind'.
+    cbn [pfree]. destruct panics; [|easy]. intros Hk i Hr.
+    cbn [run] in Hr. rewrite log_record_r_nest in Hr.
+    rewrite forallb_forall in Hk. rewrite Forall_forall in IH.
+    apply in_nest in Hr. destruct Hr as [(e & He)|(a & [Hr|Hr])]; [easy| |].
+    - cbn in Hr. apply in_issued in Hr. destruct Hr as (k & Hk' & Hr). now apply (IH k Hk' (Hk k Hk') i).
+    - apply in_issued in Hr. destruct Hr as (k & Hk' & Hr). now apply (IH k Hk' (Hk k Hk') i).
+  Qed.
+
+  Theorem run_top_pfree c : pfree c = true -> run_top apps nodes c = run apps nodes c.
+  Proof. intros H. apply cut_no_unwind. now apply run_pfree. Qed.
+
+  (* a caught panic leaves nothing behind: the next top-level call is an ordinary call *)
+  Lemma run_seq_cons c cs : run_seq apps nodes (c :: cs) = run_top apps nodes c ++ run_seq apps nodes cs.
+  Proof. reflexivity. Qed.
+
+  Lemma run_seq_ids cs r :
+    In r (run_seq apps nodes cs) -> In (rid r) (concat (map ids cs)).
+  Proof.
+    unfold run_seq. rewrite !in_concat. intros (l & Hl & Hr). rewrite in_map_iff in Hl.
+    destruct Hl as (c & <- & Hc). exists (ids c). split; [now apply in_map|].
+    apply run_ids. now apply cut_in.
+  Qed.
+
+  (* ---------- threads ---------- *)
+  (* lib.rs shares nothing mutable between log calls, so a concurrent trace is
+     some interleaving of the threads' own traces *)
+  Inductive merge : list rev -> list rev -> list rev -> Prop :=
+  | merge_nil : merge [] [] []
+  | merge_l x l1 l2 m : merge l1 l2 m -> merge (x :: l1) l2 (x :: m)
+  | merge_r x l1 l2 m : merge l1 l2 m -> merge l1 (x :: l2) (x :: m).
+
+  Lemma merge_left l : merge l [] l.
+  Proof. induction l; constructor; auto. Qed.
+  Lemma merge_right l : merge [] l l.
+  Proof. induction l; constructor; auto. Qed.
+
+  Lemma merge_app_r l1 l2 : merge l1 l2 (l2 ++ l1).
+  Proof. induction l2; cbn; [apply merge_left|now constructor]. Qed.
+
+  Lemma sched_merge ev1 ev2 : merge ev1 ev2 (sched ev1 ev2).
+  Proof.
+    induction ev1 as [|e es IH]; [apply merge_right|].
+    destruct e as [i [a k|a|a]|i]; cbn [sched]; constructor; auto.
+    apply merge_app_r.
+  Qed.
+
+  Lemma merge_filter_r p l1 l2 m :
+    merge l1 l2 m ->
+    (forall x, In x l1 -> p x = false) -> (forall x, In x l2 -> p x = true) ->
+    filter p m = l2.
+  Proof.
+    induction 1 as [|x l1 l2 m _ IH|x l1 l2 m _ IH]; intros H1 H2; [reflexivity| |]; cbn [filter].
+    - rewrite (H1 x (or_introl eq_refl)). apply IH; auto. intros y Hy. apply H1. now right.
+    - rewrite (H2 x (or_introl eq_refl)). f_equal. apply IH; auto. intros y Hy. apply H2. now right.
+  Qed.
+
+  Lemma merge_sym l1 l2 m : merge l1 l2 m -> merge l2 l1 m.
+  Proof. induction 1; constructor; auto. Qed.
+
+  Definition mem (l : list nat) (r : rev) : bool := existsb (Nat.eqb (rid r)) l.
+
+  Lemma mem_in l r : mem l r = true <-> In (rid r) l.
+  Proof.
+    unfold mem. rewrite existsb_exists. split.
+    - intros (x & Hx & He). apply Nat.eqb_eq in He. now rewrite He.
+    - intros H. exists (rid r). split; [exact H|apply Nat.eqb_refl].
+  Qed.
+
+  (* whatever another thread does meanwhile, and however the two traces are
+     interleaved, a thread's own events are those of its own sequential run *)
+  Theorem concurrent_isolated cs1 cs2 m :
+    (forall i, In i (concat (map ids cs1)) -> ~ In i (concat (map ids cs2))) ->
+    merge (run_seq apps nodes cs1) (run_seq apps nodes cs2) m ->
+    filter (mem (concat (map ids cs2))) m = run_seq apps nodes cs2 /\
+    filter (mem (concat (map ids cs1))) m = run_seq apps nodes cs1.
+  Proof.
+    intros Hd Hm. split.
+    - apply (merge_filter_r _ _ _ _ Hm).
+      + intros x Hx. apply run_seq_ids in Hx. destruct (mem _ x) eqn:E; [|reflexivity].
+        apply mem_in in E. now elim (Hd _ Hx).
+      + intros x Hx. apply mem_in. now apply run_seq_ids.
+    - apply (merge_filter_r _ _ _ _ (merge_sym _ _ _ Hm)).
+      + intros x Hx. apply run_seq_ids in Hx. destruct (mem _ x) eqn:E; [|reflexivity].
+        apply mem_in in E. now elim (Hd _ E).
+      + intros x Hx. apply mem_in. now apply run_seq_ids.
+  Qed.
+End Re.
